@@ -2,13 +2,113 @@
   C15 — temporal_vector()/environmental_vector() are faithful and score-preserving.
 -/
 import Cvss.Model.Any
+import Cvss.Lemmas.Construct
+import Cvss.Lemmas.Invariance
 namespace Cvss.Props.C15
-open Cvss Cvss.Model
+open Cvss Cvss.Model Cvss.Lemmas.Construct Cvss.Lemmas.Invariance
 
 /-- mandatory ++ temporal ++ environmental is exactly the metric table, in table order -/
 theorem groups_partition :
     Gen.V2.mandatory ++ Gen.V2.temporal ++ Gen.V2.environmental = keys Gen.V2.abbrs ∧
     Gen.V3.mandatory ++ Gen.V3.temporal ++ Gen.V3.environmental = keys Gen.V3.abbrs := by
   decide +kernel
+
+/-- v2: both sub-vectors list every metric of their group once, in specification order, with the
+    stated value, or ND when it was omitted or Not Defined -/
+theorem v2_subvectors (o : V2.Obj) :
+    o.temporalVector = join '/' (Gen.V2.temporal.map (fun k => fieldOf (k, assignment V2.ND o.metrics k))) ∧
+    o.environmentalVector = join '/' (Gen.V2.environmental.map (fun k => fieldOf (k, assignment V2.ND o.metrics k))) :=
+  Lemmas.Invariance.v2_subvectors o
+
+/-- the value v3 sub-vectors show for a metric: the stated value; for a Modified metric that was omitted or
+    X, the base metric's value; X otherwise -/
+def shown3 (a : Str → Str) (k : Str) : Str :=
+  if k ∈ V3.modifiedMetrics ∧ a k = V3.X then a (k.drop 1) else a k
+
+theorem mandatory_not_modified : ∀ k ∈ Gen.V3.mandatory, k ∉ V3.modifiedMetrics := by decide
+
+theorem modified_in_table : ∀ k ∈ V3.modifiedMetrics, k ∈ V3.tables.abbrs := by decide
+
+theorem v3_subvectors (s : Str) (o : V3.Obj) (h : V3.construct s = .ok o) :
+    o.temporalVector = join '/' (Gen.V3.temporal.map (fun k => fieldOf (k, shown3 (assignment V3.X o.orig) k))) ∧
+    o.environmentalVector =
+      join '/' (Gen.V3.environmental.map (fun k => fieldOf (k, shown3 (assignment V3.X o.orig) k))) :=
+  Lemmas.Invariance.v3_subvectors h
+
+/-- v2: the base metrics followed by both sub-vectors form a vector that is accepted and has exactly
+    the same scores -/
+theorem v2_reassembled (s : Str) (o : V2.Obj) (h : V2.construct s = .ok o) :
+    ∃ o', V2.construct (join '/' (Gen.V2.mandatory.map (fun k => fieldOf (k, assignment V2.ND o.metrics k))) ++
+            '/' :: o.temporalVector ++ '/' :: o.environmentalVector) = .ok o' ∧ o'.scores = o.scores := by
+  obtain ⟨hp0, -, hb, ht, hen⟩ := v2_construct_spec h
+  obtain ⟨-, -, hl, hn, hm⟩ := C04.v2_parse_ok_fields _ _ hp0
+  have hleg : ∀ k ∈ V2.tables.abbrs, LegalPair V2.tables (k, assignment V2.ND o.metrics k) :=
+    fun k hk => assignment_legalPair C04.pinned2 nd_ok.1 hl hm hk
+  obtain ⟨hne', hl', hs', hn', hm'⟩ :=
+    tabulate_facts C04.pinned2 (assignment V2.ND o.metrics) (by decide) (by decide) hleg
+  have hparse := C04.v2_parse_render _ hne' hl' hs' hn' hm'
+  rw [map_fieldOf_tabulate] at hparse
+  have hstr : join '/' (Gen.V2.mandatory.map (fun k => fieldOf (k, assignment V2.ND o.metrics k))) ++
+        '/' :: o.temporalVector ++ '/' :: o.environmentalVector =
+      join '/' (V2.tables.abbrs.map (fun k => fieldOf (k, assignment V2.ND o.metrics k))) := by
+    rw [(v2_subvectors o).1, (v2_subvectors o).2,
+      join3 _ _ _ _ (by simp [Gen.V2.mandatory]) (by simp [Gen.V2.temporal])
+        (by simp [Gen.V2.environmental]),
+      ← List.map_append, ← List.map_append, groups_partition.1]
+    rfl
+  rw [hstr]
+  obtain ⟨o', ho', hmet⟩ := v2_construct_of_parse hparse
+  refine ⟨o', ho', ?_⟩
+  obtain ⟨-, -, hb', ht', hen'⟩ := v2_construct_spec ho'
+  have hass : assignment V2.ND o'.metrics = assignment V2.ND o.metrics := by
+    rw [hmet]
+    refine assignment_tabulate V2.ND _ _ (fun k hk => ?_)
+    have : lookup k o.metrics = none :=
+      (lookup_eq_none_iff _ _).2 (fun hmem => hk (keys_subset_of_legal hl k hmem))
+    simp [assignment, this]
+  simp only [V2.Obj.scores, hb, ht, hen, hb', ht', hen', hass]
+
+/-- v3: likewise behind the version prefix -/
+theorem v3_reassembled (s : Str) (o : V3.Obj) (h : V3.construct s = .ok o) :
+    ∃ o', V3.construct (V3.versionPrefix o.minor ++
+            join '/' (Gen.V3.mandatory.map (fun k => fieldOf (k, assignment V3.X o.orig k))) ++
+            '/' :: o.temporalVector ++ '/' :: o.environmentalVector) = .ok o' ∧ o'.scores = o.scores := by
+  obtain ⟨hp0, -, hb, ht, hen, -⟩ := v3_construct_spec h
+  obtain ⟨⟨p, hpi, -⟩, -, hl, hn, hm⟩ := C04.v3_parse_ok_fields _ _ _ hp0
+  have hleg : ∀ k ∈ V3.tables.abbrs, LegalPair V3.tables (k, shownV3 (assignment V3.X o.orig) k) :=
+    fun k hk => shownV3_legalPair hl hm hk
+  obtain ⟨hne', hl', hs', hn', hm'⟩ :=
+    tabulate_facts C04.pinned3 (shownV3 (assignment V3.X o.orig)) (by decide) (by decide) hleg
+  have hparse := C04.v3_parse_render o.minor p hpi _ hne' hl' hs' hn' hm'
+  rw [map_fieldOf_tabulate, v3_prefix_eq hpi] at hparse
+  have hmand : Gen.V3.mandatory.map (fun k => fieldOf (k, assignment V3.X o.orig k)) =
+      Gen.V3.mandatory.map (fun k => fieldOf (k, shownV3 (assignment V3.X o.orig) k)) := by
+    apply List.map_congr_left
+    intro k hk
+    rw [shownV3_plain _ (mandatory_not_modified k hk)]
+  have hstr : V3.versionPrefix o.minor ++
+        join '/' (Gen.V3.mandatory.map (fun k => fieldOf (k, assignment V3.X o.orig k))) ++
+        '/' :: o.temporalVector ++ '/' :: o.environmentalVector =
+      V3.versionPrefix o.minor ++
+        join '/' (V3.tables.abbrs.map (fun k => fieldOf (k, shownV3 (assignment V3.X o.orig) k))) := by
+    rw [(Lemmas.Invariance.v3_subvectors h).1, (Lemmas.Invariance.v3_subvectors h).2, hmand, List.append_assoc,
+      List.append_assoc, ← List.append_assoc (join _ _),
+      join3 _ _ _ _ (by simp [Gen.V3.mandatory]) (by simp [Gen.V3.temporal])
+        (by simp [Gen.V3.environmental]),
+      ← List.map_append, ← List.map_append, groups_partition.2]
+    rfl
+  rw [hstr]
+  obtain ⟨o', ho', hmin, hor⟩ := v3_construct_of_parse hparse
+  refine ⟨o', ho', ?_⟩
+  obtain ⟨-, -, hb', ht', hen', -⟩ := v3_construct_spec ho'
+  have hass : assignment V3.X o'.orig = shownV3 (assignment V3.X o.orig) := by
+    rw [hor]
+    refine assignment_tabulate V3.X _ _ (fun k hk => ?_)
+    have : lookup k o.orig = none :=
+      (lookup_eq_none_iff _ _).2 (fun hmem => hk (keys_subset_of_legal hl k hmem))
+    rw [shownV3_plain _ (fun hmod => hk (modified_in_table k hmod))]
+    simp [assignment, this]
+  simp only [V3.Obj.scores, hb, ht, hen, hb', ht', hen', hass, hmin, spec_base_shownV3,
+    spec_temporal_shownV3, spec_env_shownV3]
 
 end Cvss.Props.C15
